@@ -258,6 +258,73 @@ fn expect_error(st: &mut Stats, what: &str, o: &Out, args: &[String], detail: Va
     st.distinct.insert(gen::hash_case(&[what.to_string()], Settings::new(args.len() as u32)));
 }
 
+/// File names that are unusual but legal, and standard input that arrives in several writes.
+fn unusual_channels(st: &mut Stats, tmp: &Tmp) {
+    use std::os::unix::ffi::OsStrExt;
+    let tcs: Vec<String> = vec!["abc".into(), "abd".into(), "x y".into()];
+    let s = Settings::new(0);
+    let Ok(expected) = build(&tcs, s) else { return };
+    let content = file_content(&tcs, false, true);
+    let names: Vec<Vec<u8>> = vec![
+        b"plain.txt".to_vec(),
+        b"with space.txt".to_vec(),
+        "caf\u{e9}-\u{4e2d}.txt".as_bytes().to_vec(),
+        b"cas\xE9s-latin1.txt".to_vec(),
+        b"r\xFCck\xFF.txt".to_vec(),
+        b"-dash.txt".to_vec(),
+    ];
+    for name in names {
+        let path = tmp.dir.join(std::ffi::OsStr::from_bytes(&name));
+        if std::fs::write(&path, &content).is_err() {
+            continue;
+        }
+        st.evaluations += 1;
+        st.decided += 1;
+        st.count("unusual_file_names");
+        // as an argument (-f=<path> keeps a leading dash from being read as an option)
+        let mut cmd = Command::new(GREX_BIN);
+        let mut arg = std::ffi::OsString::from("--file=");
+        arg.push(path.as_os_str());
+        cmd.arg(arg).stdin(Stdio::null()).stdout(Stdio::piped()).stderr(Stdio::piped());
+        if let Ok(o) = cmd.output() {
+            let o = Out { code: o.status.code(), stdout: o.stdout, stderr: String::from_utf8_lossy(&o.stderr).to_string() };
+            expect_success(st, "file_unusual_name", &o, &expected, &tcs, s, &[format!("--file={}", String::from_utf8_lossy(&name))]);
+        }
+        // library
+        match from_file_build(&path, s) {
+            Ok(g) if g == expected => {}
+            other => st.violation("from_file_differs_from_from", format!("file name {:?}: from_file gives {other:?}", String::from_utf8_lossy(&name)), json!({"what": "unusual_name", "name": String::from_utf8_lossy(&name)})),
+        }
+        let _ = std::fs::remove_file(&path);
+    }
+    // standard input delivered in several writes with pauses: the file name (-f -) and the test cases (-)
+    let path = tmp.path("chunked-target.txt");
+    if std::fs::write(&path, &content).is_ok() {
+        let p = format!("{}\n", path.to_string_lossy());
+        for (args, data) in [(vec!["-f".to_string(), "-".to_string()], p.into_bytes()), (vec!["-".to_string()], content.clone().into_bytes())] {
+            st.evaluations += 1;
+            st.decided += 1;
+            st.count("chunked_stdin");
+            let child = Command::new(GREX_BIN).args(&args).stdin(Stdio::piped()).stdout(Stdio::piped()).stderr(Stdio::piped()).spawn();
+            if let Ok(mut child) = child {
+                if let Some(mut si) = child.stdin.take() {
+                    let k = data.len() / 2;
+                    let _ = si.write_all(&data[..k]);
+                    let _ = si.flush();
+                    std::thread::sleep(std::time::Duration::from_millis(300));
+                    let _ = si.write_all(&data[k..]);
+                    drop(si);
+                }
+                if let Ok(o) = child.wait_with_output() {
+                    let o = Out { code: o.status.code(), stdout: o.stdout, stderr: String::from_utf8_lossy(&o.stderr).to_string() };
+                    expect_success(st, "stdin_in_two_writes", &o, &expected, &tcs, s, &args);
+                }
+            }
+        }
+        let _ = std::fs::remove_file(&path);
+    }
+}
+
 fn error_inputs(st: &mut Stats, tmp: &Tmp) {
     let p = |name: &str, bytes: &[u8]| {
         let path = tmp.path(name);
@@ -309,6 +376,15 @@ fn error_inputs(st: &mut Stats, tmp: &Tmp) {
         let a = with(&["--min-substring-length", "0", "abc"]);
         if let Ok(o) = run_cli(&a, None) {
             expect_error(st, "zero_min_substring_length", &o, &a, json!(null));
+        }
+        // thresholds that are not a u32: out of range, negative, not a number
+        for v in ["4294967296", "4294967298", "8589934593", "99999999999999999999", "-1", "abc", "1.5", ""] {
+            for opt in ["--min-repetitions", "--min-substring-length"] {
+                let a = with(&["-r", opt, v, "aaaa", "bbbbbb"]);
+                if let Ok(o) = run_cli(&a, None) {
+                    expect_error(st, "threshold_not_a_u32", &o, &a, json!({"value": v}));
+                }
+            }
         }
     }
     // blank-only file: one empty test case, a valid input
@@ -397,6 +473,8 @@ pub fn run(ctx: &Ctx) -> i32 {
         }
     }
     settings.push(Settings::with(REP, u32::MAX, 1));
+    settings.push(Settings::with(REP, 1, u32::MAX));
+    settings.push(Settings::with(REP, u32::MAX - 1, u32::MAX - 1));
     settings.push(Settings::with(REP | VERB, 2, 2));
     settings.sort();
     settings.dedup();
@@ -616,9 +694,10 @@ pub fn run(ctx: &Ctx) -> i32 {
         }
     });
     if std::env::var("VERIF_TIMING").is_ok() { eprintln!("[timing] c12.rs block 4: {:.1}s", ctx.run.started.elapsed().as_secs_f64()); }
-    // error inputs
+    // error inputs, unusual file names, chunked standard input
     {
         let mut st = Stats::new();
+        unusual_channels(&mut st, &tmp);
         error_inputs(&mut st, &tmp);
         ctx.run.merge(st);
     }
